@@ -42,4 +42,6 @@ def replay(path):
     if f and f.get('kind') == 'c09-convergence':
         print('now:', osde.c09_gradient_errors(f['sde_type'], f['noise'], f['method'], f['adjoint_method'], f['seed'], ks=(3, 9, 10),
                                                 weights=f.get('weights', 'last'), family=f.get('family', 'gbm')))
+    if f and f.get('kind') == 'c09-general-noise':
+        print('now:', osde.c09_general_case(f['seed']))
     return 1
